@@ -571,7 +571,17 @@ def run(repo, rep):
         'their defining scope"), decided by reaching definitions of the '
         'context value at the payload call, in the lambda callable and at '
         'every context store of the library.')
-    check_r04a(repo, rep)
+    from sa import resmodel
+    resmodel.install(repo, rep)
+    resmodel.guarded_specs(repo, rep, 'R04a', check_r04a, repo, rep)
+    rep.rule('R04g', 'DELEGATE-SITUATIONS: get_delegate evaluated '
+             'abstractly on definition/call situations creates one child '
+             'context per invocation, converts every argument in it and '
+             'converts nothing while the delegate is built')
+    resmodel.report_situations(repo, rep, 'R04g', (
+        'no-conversion-before-invocation', 'fresh-child-per-invocation',
+        'converted-in-that-child', 'payload-gets-converted-slots'),
+        'the scope a call runs in')
     check_r04b(repo, rep)
     check_r04c(repo, rep)
     n = check_r04d(repo, rep)
